@@ -66,6 +66,10 @@ Definition is_type_create (e : emu_ev_t) : bool :=
 Definition handler_checks_jumbo (handler : emu_ev_t -> bool) : Prop :=
   forall e, is_type_create e = true -> e_is_jumbo e = false -> handler e = false.
 
+(* the smallest handler that makes that check and nothing else *)
+Definition jumbo_checking_handler (e : emu_ev_t) : bool :=
+  if is_type_create e then e_is_jumbo e else true.
+
 (* ---- one stream through the emulator ---------------------------------------------------- *)
 (* events as the stream layer delivers them (offsets), decoded one after the other into the
    same struct emu_ev, each given to model_event; the first failure stops the emulation *)
